@@ -478,28 +478,40 @@ pub fn list_pop(src: &[u8], l: &mut SegList, absolute: bool, dotdot: R) {
 }
 
 
-/// `out` is exactly the concatenation of `pieces` (compared in place, without
-/// building the expected text: an intermediate buffer written at symbolic
-/// offsets makes the SAT encoding explode).
-pub fn concat_eq(out: &[u8], pieces: &[&[u8]]) -> bool {
-    let mut k = 0;
+/// `out` is exactly the concatenation of `pieces`.  `out` is read at concrete
+/// positions `0..k` only (see `pieces_eq_k`); `k` is a constant at the call site.
+pub fn concat_eq(out: &[u8], pieces: &[&[u8]], k: usize) -> bool {
+    let mut total = 0;
+    let mut j = 0;
+    while j < pieces.len() {
+        total += pieces[j].len();
+        j += 1;
+    }
+    if out.len() != total {
+        return false;
+    }
+    assert!(total <= k, "oracle: expected text longer than the stated bound");
     let mut i = 0;
-    while i < pieces.len() {
-        let p = pieces[i];
-        if k + p.len() > out.len() {
-            return false;
-        }
-        let mut j = 0;
-        while j < p.len() {
-            if out[k + j] != p[j] {
+    while i < k {
+        if i < total {
+            let mut off = 0;
+            let mut e = 0u8;
+            let mut j = 0;
+            while j < pieces.len() {
+                let p = pieces[j];
+                if i >= off && i < off + p.len() {
+                    e = p[i - off];
+                }
+                off += p.len();
+                j += 1;
+            }
+            if out[i] != e {
                 return false;
             }
-            j += 1;
         }
-        k += p.len();
         i += 1;
     }
-    k == out.len()
+    true
 }
 
 /// The pieces of the RFC 3986 5.3 recomposition of `c` with the three
@@ -532,4 +544,110 @@ pub fn recompose_pieces<'a>(c: &Comps<'a>, slash_empty: bool) -> [&'a [u8]; 10] 
         if c.fragment.is_some() { b"#" } else { e },
         c.fragment.unwrap_or(e),
     ]
+}
+
+// ------------------------------------------------------------ exact renderings
+/// `out == prefix ++ ["/" if absolute] ++ ["./" if shield] ++ join(l, "/") ++ suffix`.
+/// `out` is only ever read at *concrete* positions `0..k` (`k` and `maxseg`
+/// are constants at the call site): reading a spliced heap buffer at symbolic
+/// offsets is what makes the SAT encoding of these harnesses explode; prefix,
+/// suffix and the segments are slices of the symbolic inputs.
+pub fn rendering_eq_k(out: &[u8], prefix: &[u8], src: &[u8], l: &SegList, absolute: bool, shield: bool, suffix: &[u8], k: usize, maxseg: usize) -> bool {
+    assert!(l.n <= maxseg, "oracle: more segments than the stated bound");
+    let mut total = prefix.len() + suffix.len() + (absolute as usize) + if shield { 2 } else { 0 };
+    let mut s = 0;
+    while s < maxseg {
+        if s < l.n {
+            total += l.r[s].1 - l.r[s].0;
+            if s + 1 < l.n {
+                total += 1;
+            }
+        }
+        s += 1;
+    }
+    if out.len() != total {
+        return false;
+    }
+    assert!(total <= k, "oracle: expected text longer than the stated bound");
+    let mut i = 0;
+    while i < k {
+        if i < total {
+            let mut pos = i;
+            let mut e = 0u8;
+            let mut found = false;
+            if pos < prefix.len() {
+                e = prefix[pos];
+                found = true;
+            } else {
+                pos -= prefix.len();
+            }
+            if !found && absolute {
+                if pos == 0 {
+                    e = b'/';
+                    found = true;
+                } else {
+                    pos -= 1;
+                }
+            }
+            if !found && shield {
+                if pos < 2 {
+                    e = if pos == 0 { b'.' } else { b'/' };
+                    found = true;
+                } else {
+                    pos -= 2;
+                }
+            }
+            let mut s = 0;
+            while s < maxseg {
+                if !found && s < l.n {
+                    let (a, b) = l.r[s];
+                    if pos < b - a {
+                        e = src[a + pos];
+                        found = true;
+                    } else {
+                        pos -= b - a;
+                        if s + 1 < l.n {
+                            if pos == 0 {
+                                e = b'/';
+                                found = true;
+                            } else {
+                                pos -= 1;
+                            }
+                        }
+                    }
+                }
+                s += 1;
+            }
+            if !found {
+                e = suffix[pos];
+            }
+            if out[i] != e {
+                return false;
+            }
+        }
+        i += 1;
+    }
+    true
+}
+
+/// The plain (unshielded) rendering of `l` is faithful: it reads back as `l`.
+pub fn plain_rendering_ok(src: &[u8], l: &SegList, absolute: bool) -> bool {
+    if l.n == 0 {
+        return true;
+    }
+    let first = seg(src, l.r[0]);
+    if first.is_empty() {
+        // "/" + "" is the root (no segment); "" + "/x" would be absolute
+        return absolute && l.n >= 2;
+    }
+    true
+}
+
+/// A `.` shield in front of `l` is permitted: the first segment is empty or
+/// contains ':'.
+pub fn shield_permitted(src: &[u8], l: &SegList) -> bool {
+    l.n >= 1 && {
+        let first = seg(src, l.r[0]);
+        first.is_empty() || has_colon(first)
+    }
 }
